@@ -21,7 +21,7 @@ EXHAUSTIVE_SUBDOMAINS = ["atmos on the 10 m altitude grid over [-500, 20000] m"]
 ASSUMPTIONS = ["'tabulated ISA' = analytic hydrostatic ISA with g0, R, lapse rate -6.5 K/km, isothermal above 11 km",
                "round-trip tolerance 1e-8 relative (double precision through two pow() calls)"]
 REQUIRED = ["atmos_grid", "tropopause", "roundtrip", "monotone", "sea_level", "ordering", "distance_uniform",
-            "distance_antipodal", "distance_identical", "distance_cardinal", "distance_with_H", "recall_after_in_place_edit", "bearing", "array_equals_scalar", "types"]
+            "distance_antipodal", "distance_identical", "distance_cardinal", "distance_with_H", "recall_after_in_place_edit", "narrow_integer_dtypes", "bearing", "array_equals_scalar", "types"]
 
 
 def rel(a, b):
@@ -261,6 +261,17 @@ def m_types(ctx, case):
                 ctx.ev()
                 if ri[0] != "ok" or not rel(float(ri[1]), float(rs[1])) <= 1e-8:
                     ctx.violation("integer-arguments-differ-from-float", fn=f, v=xs[k], H=H[k], int_result=repr(ri[1:])[:60], float_result=float(rs[1]))
+        # narrow integer dtypes (what a down-cast data frame column holds): same values, same answers
+        if "mach2" not in f and all(float(t).is_integer() for t in xs) and all(float(h).is_integer() for h in H):
+            for dt_v, dt_h in (("int16", "int32"), ("int32", "int16"), ("uint16", "int32"), ("int64", "int64")):
+                if dt_h == "int16" and max(abs(h) for h in H) > 32000:
+                    continue
+                ri = call(F, np.array(xs, dtype=dt_v), np.array(H, dtype=dt_h))
+                ctx.ev()
+                ctx.hit("narrow_integer_dtypes")
+                if ri[0] != "ok" or np.shape(ri[1]) != np.shape(x) or not np.allclose(ri[1], ra[1], rtol=1e-8, atol=0, equal_nan=False):
+                    ctx.violation("integer-arguments-differ-from-float", fn=f, dtypes=[dt_v, dt_h], v=xs[:6], H=H[:6],
+                                  int_result=repr(ri[1:])[:120], float_result=repr(ra[1])[:120])
         # broadcasting: array speeds at one altitude, one speed at an array of altitudes, 2-D arrays
         h0, x0 = float(H[0]), xs[0]
         rb = call(F, x, h0)
@@ -336,6 +347,9 @@ def cases(ctx):
         n = rng.randint(4, 12)
         H = [rng.choice((-500.0, -100.0, 0.0, 10999.0, 11000.0, 11001.0, 20000.0, float(rng.randint(-500, 20000)), rng.uniform(-500, 20000))) for _ in range(n)]
         V = [rng.choice((float(rng.randint(1, 450)), rng.uniform(0.5, 450), 1.0, 450.0)) for _ in range(n)]
+        if k % 3 == 0:   # all-integral case for the integer-dtype comparisons
+            H = [float(rng.choice((-500, -100, 0, 10999, 11000, 11001, 20000, rng.randint(-500, 20000)))) for _ in range(n)]
+            V = [float(rng.choice((1, 181, 182, 255, 256, 257, 450, rng.randint(1, 450)))) for _ in range(n)]
         yield "types", {"H": H, "v": V}
     # geo
     def rp():
